@@ -53,6 +53,7 @@ def rule_menu():
         ("Any(ccXor(a,b,c|c),x)", C('Any', None, [ccXor("abc", "c"), L("x")])),
         # item ids that sort BEFORE the generated 'VAR<sha>' ids (upper case, digits): the position of the non-default part among the sorted children changes
         ("ccAny(E1,b|E1)", ccAny(["E1", "b"], "E1")), ("ccXor(2,a,c|2)", ccXor(["2", "a", "c"], "2")), ("ccAny(E1,Zz,b|Zz)", ccAny(["E1", "Zz", "b"], "Zz")),
+        ("ccAny(x,ccXor(a,b|a)|x)", ccAny(["x", ccXor("ab", "a")], "x")),
         ("ccAny(a,P|a)", ccAny(["a", P_PACK], "a")),
         ("ccXor(a,P|a)", ccXor(["a", P_PACK], "a")),
         ("ccAny(a,P,Q|a)", ccAny(["a", P_PACK, Q_PACK], "a")),
